@@ -298,6 +298,18 @@ class Body:
                         loops[h] = [body, [(a, h)]]
         return [(h, b, e) for h, (b, e) in sorted(loops.items())]
 
+    def iterates(self):
+        """Does the body run an internal iteration (fold / try_fold / for_each / try_for_each of an iterator)? Such a body is a loop
+        written with a consuming adaptor: it is summarised, not inlined, exactly like a body with a MIR loop."""
+        if getattr(self, '_iterates', None) is None:
+            self._iterates = False
+            for _, t in self.calls():
+                n = norm(t.get('resolved') or t.get('callee') or '')
+                if n.split('::')[-1] in ('fold', 'try_fold', 'for_each', 'try_for_each') and ('Iterator' in n or 'iter::' in n):
+                    self._iterates = True
+                    break
+        return self._iterates
+
     def reach(self, start, avoid=()):
         """Blocks reachable from block `start` (inclusive) without entering blocks in avoid."""
         succ, _, _ = self.cfg()
